@@ -95,6 +95,9 @@ func DialUnix(network string, laddr, raddr *UnixAddr) (*UnixConnection, error) {
 	default:
 		return nil, &net.OpError{Op: "dial", Net: network, Source: laddr.opAddr(), Addr: raddr.opAddr(), Err: net.UnknownNetworkError(network)}
 	}
+	if raddr == nil {
+		return nil, &net.OpError{Op: "dial", Net: network, Source: laddr.opAddr(), Addr: nil, Err: errMissingAddress}
+	}
 	sd := &sysDialer{network: network, address: raddr.String()}
 	c, err := sd.dialUnix(context.Background(), laddr, raddr)
 	if err != nil {
